@@ -104,6 +104,7 @@ func LoadProgram(dir, goarch string, tests bool) (*Program, error) {
 	}
 	sort.SliceStable(P.Funcs, func(i, j int) bool { return P.Funcs[i].Pos() < P.Funcs[j].Pos() })
 	P.renameMap() // resolve renamed helpers before any rule asks for a name
+	flowProg = P
 	return P, nil
 }
 
